@@ -2,7 +2,7 @@
     Only statements, each closed by [exact] of a lemma proved in Storage/Proofs.v.
     [ser], [parse_obj], [member] are the serialiser / reader of primitives (Section functions of the model,
     quantified here); their round trip is an explicit premise where it is needed (it is property C04). *)
-From PdfV Require Import Base.Prelude Storage.Prim Storage.Model Storage.Proofs Storage.Syntax Storage.Run.
+From PdfV Require Import Base.Prelude Storage.Prim Storage.Model Storage.Proofs Storage.Syntax Storage.Run Storage.Tables.
 
 (** Before any save, every read through the same open document already reflects each write: the reference
     handed back names the caller's object (same number — also for objects stored in object streams), reads of
